@@ -123,6 +123,7 @@ func chainFor4(c *R4Case) ([]handler.Handler4, *chainInst, error) {
 func feed4(cap4 *server.Capture4, dgram []byte, oob *ipv4.ControlMessage, peer *net.UDPAddr) (sent []server.Sent, panicked interface{}) {
 	defer func() {
 		if r := recover(); r != nil {
+			core.HarnessPanic(r)
 			panicked = r
 		}
 	}()
